@@ -200,10 +200,61 @@ fn stable_graph(seed: u64, n: usize) -> Result<(Events, bool), String> {
     Ok((ev, r1 == r2))
 }
 
+/// a wide mixer (hundreds of inputs into one node, far more than any capacity hint) and every channel-count mismatch
+fn wide_mixer(seed: u64, n: usize) -> Result<(Events, bool), String> {
+    let calls = 3 + n / 256;
+    let fan_in = 260 + (seed as usize % 7) * 41 + n % 500;
+    let run = |armed: bool| -> (u64, Events) {
+        let mut g: G = Graph::with_capacity(0, 0);
+        let mix_sum = g.add_node(NodeData::new(BoxedNode::new(Sum), vec![Buffer::SILENT; 2]));
+        let mix_all = g.add_node(NodeData::new(BoxedNode::new(SumBuffers), vec![Buffer::SILENT; 1]));
+        for k in 0..fan_in {
+            let nb = 1 + k % 4;
+            let src = g.add_node(NodeData::new(source_node(seed, k), vec![Buffer::SILENT; nb]));
+            g.add_edge(src, mix_sum, ());
+            if k % 3 == 0 {
+                g.add_edge(src, mix_all, ());
+                g.add_edge(src, mix_all, ()); // parallel edge
+            }
+        }
+        // channel-count mismatches in both directions
+        let up = g.add_node(NodeData::new(BoxedNode::new(Pass), vec![Buffer::SILENT; 5]));
+        let down = g.add_node(NodeData::new(BoxedNode::new(Pass), vec![Buffer::SILENT; 1]));
+        let up2 = g.add_node(NodeData::new(BoxedNode::new(pass_fn as fn(&[Input], &mut [Buffer])), vec![Buffer::SILENT; 2]));
+        let out = g.add_node(NodeData::new(BoxedNode::new(SumBuffers), vec![Buffer::SILENT; 3]));
+        g.add_edge(mix_sum, up, ());
+        g.add_edge(mix_sum, down, ());
+        g.add_edge(mix_all, up2, ());
+        for x in [up, down, up2] {
+            g.add_edge(x, out, ());
+        }
+        let mut p = Processor::with_capacity(2);
+        p.process(&mut g, out);
+        let mut acc = 0u64;
+        let body = |g: &mut G, p: &mut Processor<G>, acc: &mut u64| {
+            for _ in 0..calls {
+                p.process(g, out);
+                checksum(g, out, acc);
+            }
+        };
+        if armed {
+            let (_, ev) = measure(|| body(&mut g, &mut p, &mut acc));
+            (acc, ev)
+        } else {
+            body(&mut g, &mut p, &mut acc);
+            (acc, Events::default())
+        }
+    };
+    let (r1, _) = run(false);
+    let (r2, ev) = run(true);
+    Ok((ev, r1 == r2))
+}
+
 pub fn scenarios() -> Vec<(&'static str, ScenarioFn)> {
     vec![
         ("graph: random graph of stock nodes and wrappers, one output node", graph_one_output as ScenarioFn),
         ("graph: alternating output nodes of one graph", graph_alternating as ScenarioFn),
         ("graph: StableGraph with a vacant slot and feedback through a delay", stable_graph as ScenarioFn),
+        ("graph: wide mixer (260..1000 inputs into one node) and channel-count mismatches in both directions", wide_mixer as ScenarioFn),
     ]
 }
